@@ -22,9 +22,9 @@ import (
 func init() {
 	core.Register(&core.Prop{
 		ID: "C10", Level: "exploration",
-		Rule: "cases are programs of 1-60 field-map operations (typed/raw setters, overwrite, remove, clear, set-again, SetGroup incl. nested and empty, FieldMap.CopyInto, Message.CopyInto, build) on two messages, plus all programs of length<=4 over a 7-op x 3-tag alphabet; non-trivial = program with a remove/clear followed by a set on the same section, or a group, or a copy; distinct by the sequence of operation kinds",
+		Rule:        "cases are programs of 1-60 field-map operations (typed/raw setters, overwrite, remove, clear, set-again, SetGroup incl. nested and empty, FieldMap.CopyInto, Message.CopyInto, build) on two messages, plus all programs of length<=4 over a 7-op x 3-tag alphabet; non-trivial = program with a remove/clear followed by a set on the same section, or a group, or a copy; distinct by the sequence of operation kinds",
 		Assumptions: []string{"8 and 35 are present at build time; tags are placed in their proper section; values are SOH-free", "only API-built messages are copied (a parsed message serialises from its raw bytes)", "group member tags are drawn from a range disjoint from plain body tags so that the oracle can attribute every wire field"},
-		FloorQuick: 200, FloorThorough: 2000,
+		FloorQuick:  200, FloorThorough: 2000,
 		Parts: []core.Part{{Name: "programs", Run: run, Replay: replay}},
 	})
 }
@@ -246,7 +246,7 @@ type strField struct {
 }
 
 func (f strField) Tag() quickfix.Tag { return f.t }
-func (f strField) Write() []byte    { return []byte(f.v) }
+func (f strField) Write() []byte     { return []byte(f.v) }
 
 func sect(m *quickfix.Message, s int) *quickfix.FieldMap {
 	switch s {
